@@ -119,7 +119,11 @@ class Eq:
                 self.miss(label, "%r became %r" % (a["name"], b["name"]))
             self.options(a["options"], b["options"], label + " options")
         if set(p.parameters) != set(q.parameters):
-            self.miss("parameters", "%r became %r" % (sorted(p.parameters), sorted(q.parameters)))
+            # a parameter that cancels identically out of every argument (`{a}+({b}-{a})`) is not part of the serialised
+            # program (like a parameter that occurs only in an unused array variable): outside the claim
+            lost = set(p.parameters) - set(q.parameters)
+            if set(q.parameters) - set(p.parameters) or lost & _occurring(p):
+                self.miss("parameters", "%r became %r" % (sorted(p.parameters), sorted(q.parameters)))
         if len(p.operations) != len(q.operations):
             return self.miss("operations", "%d operations became %d" % (len(p.operations), len(q.operations)))
         for k, (a, b) in enumerate(zip(p.operations, q.operations)):
@@ -136,6 +140,31 @@ class Eq:
                     self.miss("variable " + k, "lost")
                 else:
                     self.value(p.variables[k], q.variables[k], "variable " + k)
+
+
+def _occurring(p):
+    """names of the symbols that actually occur in the operations' arguments"""
+    out = set()
+
+    def walk(x):
+        if isinstance(x, sympy.Basic):
+            out.update(str(s) for s in x.free_symbols)
+        elif type(x).__name__ == "RegRefTransform":
+            pass
+        elif isinstance(x, (list, tuple)):
+            for e in x:
+                walk(e)
+        elif isinstance(x, dict):
+            for e in x.values():
+                walk(e)
+        elif isinstance(x, np.ndarray) and x.dtype == object:
+            for e in np.ndarray.flatten(x):
+                walk(e)
+
+    for o in p.operations:
+        walk(o.get("args", []))
+        walk(o.get("kwargs", {}))
+    return out
 
 
 def exact_equal(a, b):
